@@ -44,6 +44,7 @@ def run(tier):
             f = (f5 + f7 + [{}])[0]
             cls = "structure" if r5["sfp"] != r7["sfp"] else "tokens-or-positions"
             check.violation({"class": "families-differ-" + cls, "kind": f.get("kind"), "detail": f.get("c"), "deviates": "5" if f5 else ("7" if f7 else "?"),
+                             "classref_chain": ".Class" in (f.get("path") or "") and any("/classref" in u for u in used),
                              "family": "empty-heredoc-flex" if (f.get("kind") == "ScalarHeredoc" and
                                                                   c01.family(tasks[k]["src"].encode("latin-1"), v7) == "empty-heredoc-flex") else "other"},
                             {"src": tasks[k]["src"], "versions": [v5, v7], "php5_vs_spec": f5[:3], "php7_vs_spec": f7[:3], "variants": used})
